@@ -151,7 +151,19 @@ def call_cases(draw):
         "stored_ekin": draw(st.sampled_from([None, None, 7777.25])),
         # TurtleMD systems of lower dimension (1D double well, 2D): the xyz frames still carry three velocity columns
         "tmd_dim": draw(st.sampled_from([3, 3, 1, 2])),
+        "boundary": draw(st.sampled_from([True, True, True, False])),  # the stream crossed the process boundary (as in a run) / a freshly built one
     }
+
+
+def job_stream(seed, boundary=True):
+    """The engine stream as a job carries it: a spawned child that reached the worker through pickling (numpy keeps the
+    state of a pickled generator, not its seed sequence)."""
+    g = np.random.default_rng(seed)
+    if boundary:
+        import pickle
+
+        g = pickle.loads(pickle.dumps(g.spawn(2)[1]))
+    return g
 
 
 def body_call(rec, c):
@@ -160,7 +172,7 @@ def body_call(rec, c):
     try:
         T = c["temperature"] if engine != "turtlemd" else c["temperature"] / 300.0
         eng, src, masses, reader, extra = setup(engine, root, c["masses_idx"], c["pos"], c["vel"], T, c.get("int_masses", False), c.get("ase_integ"), c.get("tmd_dim", 3))
-        eng.rgen = np.random.default_rng(c["seed"])
+        eng.rgen = job_stream(c["seed"], c.get("boundary", True))
         vs = {"zero_momentum": c["zero_momentum"]} if c["zero_momentum"] is not None else {}
         src_bytes = open(src, "rb").read()
         before = reader(src)
@@ -234,13 +246,13 @@ def body_call(rec, c):
             rec.check(abs(dek - (kin_new - kin_old)) <= 1e-6 * max(abs(kin_new), abs(kin_old)), f"{engine}:dek-inconsistent", f"dek={dek} kin_new-kin_old={kin_new-kin_old}")
         # reproducible from the job stream, and only from it
         rec.check(np.random.get_state()[1][:8].tolist() == gstate, f"{engine}:global-numpy-rng-consumed", info)
-        eng.rgen = np.random.default_rng(c["seed"])
+        eng.rgen = job_stream(c["seed"], c.get("boundary", True))
         s2 = ek.system_for(src, 0)
         np.random.seed(12345)
         eng.modify_velocities(s2, vs)
         v2 = reader(s2.config[0])["vel"]
         rec.check(np.array_equal(v, v2), f"{engine}:same-stream-different-velocities", f"{v.tolist()} vs {v2.tolist()}")
-        eng.rgen = np.random.default_rng(c["seed"] + 1)
+        eng.rgen = job_stream(c["seed"] + 1, c.get("boundary", True))
         s3 = ek.system_for(src, 0)
         eng.modify_velocities(s3, vs)
         v3 = reader(s3.config[0])["vel"]
